@@ -120,6 +120,11 @@ Theorem C06_code_records_are_per_reloader :
    insert_checks_reloader Record_insert_dir = true.
 Proof. exact records_shapes. Qed.
 
+(* never re-reads -- let alone rewrites -- the source on its own: outside the operations that edit the source, its files, directories and fault plan stay what they were, through every load, look-up, notification and reload pass *)
+Theorem C06_cache_operations_only_read_the_source : forall fuel s o,
+  edits_source o = false -> src_same s (fst (fst (step fuel s o))).
+Proof. exact cache_operations_only_read_the_source. Qed.
+
 (* the premises are met: an edited file, a notification, and the pass that reloads its asset *)
 Example C06_precision_nonvacuous :
   let s := drain (fst (run (init_st true)
